@@ -445,9 +445,12 @@ def FileW.step (w : FileW) (o : Op) : FileW × Obs :=
       (w', obsOf st'.cache w.st.cache (r.2 == .ok) r.1)
   | _ => (w', obsOf st'.cache w.st.cache true [])
 
-/-- `newFileStore` on existing files -/
+/-- `newFileStore` on existing files: a new memory store as cache (one clock reading), then `Refresh` -/
+def fileOpenPrims (sync : Bool) (fs : FS) (clock : Nat) : FStore × List Prim :=
+  refreshOp { cache := MemStore.reset {} clock, sync := sync, opened := false } fs (clock + 1)
+
 def FileW.open (sync : Bool) (fs : FS) (clock : Nat) : FileW :=
-  let (s, p) := refreshOp { cache := MemStore.reset {} clock, sync := sync, opened := false } fs (clock + 1)
+  let (s, p) := fileOpenPrims sync fs clock
   { st := s, fs := applyPrims fs p, clock := clock + 2 }
 
 def FileW.run (w : FileW) : List Op → FileW × List Obs
